@@ -410,6 +410,7 @@ def run_case(case, want_labels=False):
         "events": ev_items(conn._Connector__events) if conn else [],
         "locked_q": [classify(m) for m in conn._Connector__locked_pdus.items()] if conn else [],
         "sync_q": ev_items(conn._Connector__sync_events) if conn else [],
+        "cleared": [classify(e.message) for e in conn._Connector__sync_events.cleared if isinstance(e, D.MessageReceived)] if conn else [],
         "clock": s.clock, "locked": bool(conn._Connector__locked) if conn else bool(case.get("locked0")),
         "late": late["n"], "adone": bool(s.threads["A"].done),
     }
